@@ -7,8 +7,9 @@ from common import run_fjv, workdir, pmap
 import crash as C
 from props.c02 import allowed_states
 
-LEVEL = "fault_enumeration"
-COQ_TARGETS = ()
+LEVEL = "proof"
+COQ_TARGETS = ("props/C09.vo",)
+THEOREMS = ["C09_persist_sync_durable", "C09_persist_buffer_crash_safe", "C09_powerloss_is_prefix", "C09_synced_batches_recovered"]
 
 
 def synced_extents(evs):
@@ -137,7 +138,62 @@ def trace_conformance(args):
         shutil.rmtree(wd, ignore_errors=True)
 
 
+def writer_conformance(args):
+    """Writer.v vs the real journal writer: random sequences of writes (entry sizes on both sides of the 8 KiB buffer,
+    accumulating across it) and persists with fully manual journal persist; the sequence of write()/fdatasync()/fsync()
+    calls on the journal file and their byte counts must equal the model's."""
+    import subprocess
+    from common import FJM, ENV
+    idx, seed = args
+    r = random.Random(seed * 982451653 + idx)
+    L = ["open plain jcomp=none manual=1", "ks h0 alpha manualp=1", "persist buffer", "arm"]
+    M = []
+    for _ in range(r.randrange(8, 30)):
+        c = r.random()
+        if c < 0.55:
+            n = r.choice([0, 1, 10, 100, 1000, 3000, 4000, 8100, 8150, 8171, 8192, 9000, 20000])
+            k = "6b%02x" % r.randrange(256)
+            L.append("put h0 %s %s" % (k, ("ab" * n) or "-"))
+            M.append("b 13 %d 13" % (21 + 2 + n))
+        elif c < 0.75:
+            its, lens = [], [13]
+            for _ in range(r.randrange(1, 5)):
+                n = r.choice([0, 5, 500, 5000, 8192, 10000])
+                k = "6c%02x" % r.randrange(256)
+                its.append("h0:p:%s:%s" % (k, ("cd" * n) or "-"))
+                lens.append(21 + 2 + n)
+            dur = r.choice(["-", "buffer", "data", "all"])
+            L.append("batch %s %s" % (dur, " ".join(its)))
+            M.append("b " + " ".join(map(str, lens + [13])))
+            if dur != "-":
+                M.append("p " + dur)
+        else:
+            m = r.choice(["buffer", "data", "all"])
+            L.append("persist " + m)
+            M.append("p " + m)
+    L.append("exit 0")
+    wd = workdir()
+    try:
+        db = C.fresh(wd)
+        o, raw, rc = run_fjv("\n".join(L) + "\n", dbdir=db, env_extra=C.shim_env(db, wd))
+        got = []
+        for e in C.read_log(wd):
+            if e["path"].endswith(".jnl"):
+                got.append("write %s" % e["len"] if e["call"] in ("write", "pwrite", "writev") else e["call"])
+        p = subprocess.run([FJM, "writer"], input="\n".join(M) + "\n", env=ENV, stdout=subprocess.PIPE, stderr=subprocess.PIPE, text=True)
+        want = p.stdout.split("\n")[:-1]
+        return None if got == want else dict(prog="\n".join(l[:80] for l in L), got=got, want=want)
+    finally:
+        shutil.rmtree(wd, ignore_errors=True)
+
+
 def run(rep, tier, seed, build):
+    from common import proof_audit, TRUSTED_BASE
+    obl, dis, pproblems = proof_audit("props/C09.v", THEOREMS, build["coq"])
+    wc = [x for x in pmap(writer_conformance, [(i, seed) for i in range(40 if tier == "quick" else 600)]) if x]
+    for x in wc[:2]:
+        rep.violation("# C09: journal writer system calls differ from Writer.v\n# implementation: %s\n# model:          %s\n%s\n"
+                      % (x["got"], x["want"], x["prog"]))
     n = 24 if tier == "quick" else 400
     results = pmap(pl_workload, [(i, seed, tier) for i in range(n)])
     tc = trace_conformance((0, seed))
@@ -161,7 +217,13 @@ def run(rep, tier, seed, build):
                              "syscall-trace conformance scenario; non-trivial = workload with at least one sync-level persist",
                         samples=[r_["sample"] for r_ in results if r_.get("sample")][:3], workloads=n, powerloss_points=runs,
                         unsynced_bytes_dropped=sum(r_["lost_bytes"] for r_ in results),
-                        journal_syscall_histogram=dict(calls), disagreements_checked=len(bad))
+                        journal_syscall_histogram=dict(calls), disagreements_checked=len(bad) + len(wc),
+                        obligations=obl, discharged=dis if not pproblems else min(dis, obl - 1),
+                        checker_cmd="cd coq && make props/C09.vo (coqc 8.16.1) + Print Assumptions audit", trusted_base=TRUSTED_BASE,
+                        programs=n + (40 if tier == "quick" else 600), traces_validated_against_impl=(40 if tier == "quick" else 600),
+                        proof_problems=pproblems)
+    if pproblems and not rep.violations:
+        rep.violation("# C09: proof obligations no longer check\n" + "\n".join(pproblems) + "\n", suffix="no-failing-input-found")
     rep.assumptions = ["fsync/fdatasync make the data written so far durable (the OS's promise)",
                        "only journal files lose unsynced data in the quick tier; table/manifest durability belongs to lsm-tree"]
 
